@@ -78,6 +78,7 @@ func init() {
 func runC01(c *Cfg) {
 	r := c.Rep
 	runSpecial(c, "C01", "same-name-node-types")
+	runSpecial(c, "C01", "zero-value-node-lifecycle")
 	// 1. exhaustive standalone product
 	var cases []*scen.Scenario
 	var sigs []string
